@@ -93,3 +93,19 @@ def arg_from_field(fn, t, idx, field):
 
 def has_call_origin(atoms, pat):
     return any(a[0] in ("call", "callres", "outparam") and re.search(pat, a[1]) for a in atoms)
+
+
+def find_impl(ck, ws, cname, self_pat, trait_pat, name, rule="ANCHOR"):
+    """Fn of the method `name` of the impl of a trait (regex) for a self type (regex); anchors existence"""
+    c = crate(ws, cname)
+    hits = []
+    for p in c.paths():
+        if not p.endswith("::" + name):
+            continue
+        for b in c.get_all(p):
+            if b.get("name") == name and re.search(self_pat, b.get("impl_self", "")) and \
+                    (trait_pat is None or re.search(trait_pat, b.get("impl_trait", ""))):
+                hits.append(b)
+    if not ck.anchor(len(hits) == 1, rule, "%s for %s::%s" % (trait_pat, self_pat, name), "impl method exists (%d found)" % len(hits)):
+        return None
+    return Fn(hits[0])
